@@ -74,7 +74,13 @@ def one(rng, k):
     else:
         data = [rng.choice([0, 0, 0, rng.randrange(256)]) for _ in range(L)]
     route = 'direct'
-    if label in ('mex_pte.h', 'nimitz_pte.h') and (k // 3) % 4 >= 1:
+    if label in ('mex_pte.h', 'nimitz_pte.h') and (k // 3) % 4 == 3 and data:
+        # as the user-data section of an I/O drawer error log, shown by `peltool -f` run as a real process in one of
+        # the ordinary environments (python -O among them)
+        route = 'process'
+        lines = drawer.lines_via_process(72, {'mex_pte.h': 1, 'nimitz_pte.h': 2}[label], data,
+                                         seams.PROC_ROTATION[(k // 12) % len(seams.PROC_ROTATION)])
+    elif label in ('mex_pte.h', 'nimitz_pte.h') and (k // 3) % 4 >= 1:
         # through the I/O drawer plug-in, which picks table and decoder by section version: the two drawer types take
         # turns in one process, and what one of them declares says nothing about the other
         import json
